@@ -8,6 +8,7 @@ Records which checks fire in /verif/seeded/<ID>/<X>/detected.json."""
 import glob, json, os, re, shutil, subprocess, sys, tempfile
 
 V = "/verif"
+ROOT = "seeded"
 
 
 def sh(cmd, cwd=None, env=None):
@@ -16,17 +17,21 @@ def sh(cmd, cwd=None, env=None):
 
 def main():
     args = sys.argv[1:]
+    global ROOT
+    if args and args[0] == "--root":      # "seeded" (property-breaking changes) or "neutral" (behaviour-preserving edits)
+        ROOT = args[1]
+        args = args[2:]
     jobs = 1
     if args and args[0] == "--jobs":
         jobs = int(args[1])
         args = args[2:]
-    targets = args or sorted(x[len(V + "/seeded/"):] for x in glob.glob(V + "/seeded/*/*") if os.path.isdir(x))
+    targets = args or sorted(x[len(V + "/" + ROOT + "/"):] for x in glob.glob(V + "/" + ROOT + "/*/*") if os.path.isdir(x))
     if jobs > 1:
         procs = []
         for k in range(jobs):
             part = targets[k::jobs]
             if part:
-                procs.append(subprocess.Popen([sys.executable, os.path.abspath(__file__)] + part))
+                procs.append(subprocess.Popen([sys.executable, os.path.abspath(__file__), "--root", ROOT] + part))
         for p in procs:
             p.wait()
         return
@@ -47,7 +52,7 @@ def main():
         if "VIOLATION" in base:
             print("BASELINE NOT CLEAN in scratch copy:\n" + "\n".join(l for l in base.splitlines() if "VIOLATION" in l or "rule=" in l)[:2000])
         for t in targets:
-            d = os.path.join(V, "seeded", t)
+            d = os.path.join(V, ROOT, t)
             sh("rsync -rlpgoD --checksum --delete %s/ %s/" % (pristine, repo))
             ap = sh("git apply --unsafe-paths --directory=%s %s" % (repo, os.path.join(d, "patch.diff")), "/")
             if ap.returncode != 0:
